@@ -157,7 +157,9 @@ def run(ctx):
                                                      coq_list([coq_bytes(a) for a in r["args"]]),
                                                      fobs(r) if isp else obs3(0, "", 0),
                                                      coq_bytes(r["nout"]) if isp and r["nout"] != "P" else "[]",
-                                                     iobs(r["iout"], r["ist"]), iobs(r["bout"], r["bst"])))
+                                                     iobs(r["iout"], r["ist"]),
+                                                     # outside the property's domain the Spec is None: bash's bytes are not needed
+                                                     iobs("" if r["ood"] else r["bout"], r["bst"])))
         # small definitions: one long literal makes coqc's parser overflow its stack on some runs
         CH = 40
         defs = ["Definition cs%d : list kase := %s.\n" % (j, coq_list(items[j * CH:(j + 1) * CH]))
